@@ -23,7 +23,10 @@ RULE = ("scope-exhaustive: all 10^L histories (L=5 quick, 6 thorough; prefixes i
         "ends and imports inside blocks. non-trivial = the history opens a block, declares successfully, and some lookup/"
         "assignment answers a value or an error 42/43/44. rebind-prog: 1 200 quick / 30 000 thorough programs that walk the "
         "matrix (way of binding) x (way of binding | assignment) x (same block | inner block | after the inner block) cell by cell, "
-        "1-3 cells per program, block kind drawn per cell; judged by the spec semantics on the intended tree")
+        "1-3 cells per program, block kind drawn per cell; judged by the spec semantics on the intended tree. input-prog (props/edges.py): 120 "
+        "programs with 输入 at program level — all inputs supplied / one or all missing (error 95 before any statement) / more than asked for, "
+        "names clashing with a predefined name / each other / a method or type of the body (43), numerals as names, inputs assigned (44) "
+        "and redeclared in an inner block")
 ASSUMPTIONS = ["element values are opaque to the symbol table (harness uses small integers wrapped in value.Number)",
                "balanced use: the spec is silent once an `end` has no open block (evaluator pairs every BeginScope with a deferred EndScope); "
                "Go and model are still compared there",
@@ -283,6 +286,17 @@ def run_program_stream(ctx):
     ps = [g.scope_program() for _ in range(n)]
     progs.run_stream(ctx, 'scope-prog', ps, nontrivial=lambda src, go: src.count('    令') >= 1)
     run_rebind_stream(ctx, g)
+    # program inputs: supplied / missing (error 95) / more than asked for / clashing names / numerals — props/edges.py
+    from props import edges
+    st = {}
+    ips = edges.input_programs(ctx.rng, ctx.n(120, 5000), st)
+    progs.run_stream(ctx, 'input-prog', ips, nontrivial=lambda src, go: True)
+    for k, v in sorted(st.items()):
+        ctx.count('input-prog:gen:' + k, v)
+    import os
+    if os.environ.get('VERIF_C06_METHODS_DEFINED_INSIDE_METHODS', '0') == '1':
+        # kept out of the check (edges.nested_method_programs): the unchanged tree answers error 43 where the spec runs the program
+        progs.run_stream(ctx, 'nested-method-prog', edges.nested_method_programs(ctx.rng, 40), nontrivial=lambda src, go: True)
 
 
 def run_rebind_stream(ctx, g, n=None):
